@@ -317,6 +317,11 @@ func (SendReqScenario) Execute(sim *sched.Sim, ci interface{}, prop string, race
 		}
 	}
 	slow := 0
+	// dropped although the inbox channel held nothing: no earlier message
+	// was waiting, the requester was just not receiving at that instant
+	// (running an extension callback, say) - not the known capacity-1
+	// finding, which needs a message in the buffer
+	slowEmpty := 0
 	deliver := func(m SRMsg) {
 		s := inbox()
 		if s == nil {
@@ -326,6 +331,9 @@ func (SendReqScenario) Execute(sim *sched.Sim, ci interface{}, prop string, race
 		_ = ds
 		if d := conn.DeliverHead(false); d != nil && d.Dropped == "slow" {
 			slow++
+			if d.Buffered == 0 {
+				slowEmpty++
+			}
 		}
 	}
 	i := 0
@@ -405,7 +413,7 @@ func (SendReqScenario) Execute(sim *sched.Sim, ci interface{}, prop string, race
 		} else if gotAt != want.At {
 			cls = "wrong-return-instant"
 		}
-		if (cls != "" || !extOK) && slow > 0 {
+		if (cls != "" || !extOK) && slow > 0 && slowEmpty == 0 {
 			// a message that reached the inbox was dropped because the
 			// inbox channel (capacity 1) was full
 			cls, sig, extOK = "inbox-message-lost", "channel-full", true
